@@ -38,6 +38,13 @@ def tstat(values, exact):
     return (m - exact) / se, m, se
 
 
+def one_sided(values, exact, scale, floor):
+    """Sign test for heavy-tailed deviations (a configuration that random-walks away): every chain mean on the same side
+    of the exact value (probability 2^-15 under the null) and the one closest to it still beyond the effect floor."""
+    d = np.asarray(values, dtype=float) - exact
+    return bool((np.all(d > 0) or np.all(d < 0)) and np.min(np.abs(d)) / scale > floor)
+
+
 # --------------------------------------------------------------------------------------
 # scenario rows
 # --------------------------------------------------------------------------------------
@@ -85,7 +92,8 @@ def row_harmonic(rnd, hmc=False, single_composite=False):
     else:
         sc["moves"] = [{"name": "d", "criteria": "Canonical", "move": {"type": "sum", "items": [
             {"type": "disp", "labels": lab, "op": op("Ball", 1.2)}, {"type": "disp", "labels": lab, "op": op("Box", 0.8)}]}}]
-    sc["observables"] = [{"name": "U", "exact": 1.5 * N * kT, "floor": 0.015}]
+    sc["observables"] = [{"name": "U", "exact": 1.5 * N * kT, "floor": 0.015},
+                         {"name": "U_configuration", "exact": 1.5 * N * kT, "floor": 0.015}]
     sc["veto"] = 0.0 if hmc else rnd.choice([0.0, 0.2])
     sc["steps_unit"] = 1500 if not hmc else 600
     if prop == "Translation":
@@ -226,6 +234,8 @@ def run_chain(sc: dict, seed: int, nsteps: int) -> dict:
                     lf.check_move = veto
                     lf.max_attempts = 1
     burn = max(50, nsteps // 5)
+    from simkit.calcs import Potential
+    pot = Potential.from_json(sc["calc"]["pot"])
     acc = {}
     n = 0
     row = sc["row"]
@@ -242,6 +252,8 @@ def run_chain(sc: dict, seed: int, nsteps: int) -> dict:
         n += 1
         if row in ("harmonic", "harmonic_hmc"):
             acc["U"] = acc.get("U", 0.0) + float(mc.context.last_potential_energy)
+            # the energy of the configuration actually on the atoms, evaluated by the harness
+            acc["U_configuration"] = acc.get("U_configuration", 0.0) + pot.energy(atoms)
         elif row == "dipole":
             b = atoms.positions[0] - atoms.positions[1]
             d = float(np.linalg.norm(b))
@@ -301,7 +313,7 @@ class C01(Campaign):
             "flagged); observables are read where the property says (last_potential_energy, volume, particle number, bond "
             "vectors after every step of srun); distinct = (row, proposal, N or lambda class, veto perturbation on/off) "
             "tuples; non-trivial = chains with at least one accepted trial")
-    assumptions = ["statistical: stage 1 |t|>4.5 over 16 chain means, violation only if 16 fresh 4x-longer chains give |t|>6, same sign, and a relative deviation above the effect floor (1.5% means, 3-5% second moments)",
+    assumptions = ["statistical: stage 1 |t|>4.5 over 16 chain means, or all 16 chain means on one side beyond the floor (sign test); violation only if 16 fresh 4x-longer chains give |t|>6 (or again all on one side), same sign, and a relative deviation above the effect floor (1.5% means, 3-5% second moments)",
                    "with the default VERIF_SEED the whole procedure is deterministic",
                    "quick tier resolves biases of roughly 4-10%; thorough about 2%"]
     real_components = ["quansino Canonical/HamiltonianCanonical/Isobaric/GrandCanonical drivers, all shipped displacement/cell/exchange moves and operations, criteria, Verlet, PCG64 stream"]
@@ -350,7 +362,9 @@ class C01(Campaign):
         cls = sc.get("N", sc.get("lambda", len(sc["atoms"]["numbers"])))
         res.cover.add(f"{sc['row']}|{sc['proposal']}|{int(cls) if cls is not None else '-'}|veto={int(bool(sc.get('veto')))}")
         res.stats["probe.acceptance_permille"] = int(1000 * acc)
-        if acc <= 0:
+        if acc <= 0 and not sc["row"].startswith("harmonic"):
+            # (the harmonic rows start from an equilibrium draw, so they stay judgeable with nothing accepted: a chain that
+            # never accepts must then also never move)
             res.count("probe.inconclusive_no_acceptance")
             return res.pack()
         flagged = []
@@ -363,7 +377,7 @@ class C01(Campaign):
             res.count("probe.observables_tested")
             scale1 = 1.0 if o.get("absolute") else abs(o["exact"])
             # (a deviation that could not reach the effect floor anyway is not worth a stage 2)
-            if abs(t) > 4.5 and abs(m - o["exact"]) / scale1 > 0.5 * o["floor"]:
+            if (abs(t) > 4.5 and abs(m - o["exact"]) / scale1 > 0.5 * o["floor"]) or one_sided(v, o["exact"], scale1, o["floor"]):
                 flagged.append((o, t, m, se))
                 res.count("probe.stage1_flag")
                 res.notes.append(f"stage-1 flag {sc['row']}/{sc['proposal']} {o['name']}: mean {m:.6g} exact {o['exact']:.6g} t={t:+.2f} se={se:.3g} values={[round(x, 5) for x in v]}")
@@ -376,7 +390,7 @@ class C01(Campaign):
                 t2, m2, se2 = tstat(v, o["exact"])
                 scale = 1.0 if o.get("absolute") else abs(o["exact"])
                 rel = abs(m2 - o["exact"]) / scale
-                if abs(t2) > 6 and (t1 > 0) == (t2 > 0) and rel > o["floor"]:
+                if (abs(t2) > 6 or one_sided(v, o["exact"], scale, o["floor"])) and (t1 > 0) == (t2 > 0) and rel > o["floor"]:
                     res.violations.append(Violation(
                         "C01", "ensemble_average_wrong", f"row={sc['row']}|observable={o['name']}|proposal={sc['proposal']}",
                         f"{o['name']}: exact {o['exact']:.6g}; stage 1 mean {m1:.6g} (t={t1:+.1f} over {self.R} chains of {nsteps} steps); "
